@@ -143,7 +143,7 @@ TEXT = {
     "C13": {
         "engine": "model",
         "technique": "runtime differential monitoring of len()/memory_usage() after every call, with memory limits (sequential part)",
-        "level_text": "Memory-biased programs with limits admitting only some writes: after every call memory_usage() must equal the sum over live keys of (measured overhead + key + value), len() the number of live keys, usage never above the limit, refused writes change nothing (same record objects), and draining every key returns usage to zero; across flush and recovery. Concurrent part: 8-16 creators/growers/shrinkers/deleters/incrementers against a limit admitting only some of them, with a monitor thread sampling memory_usage() continuously and a deterministic probe reading it while several writers are parked between reservation and publish (hook point mem.reserved): usage <= limit at every sample, equal-sized records never exceed floor(limit/size) live keys, refused writes leave the key as it was, exact equality and zero-after-drain at quiescence.",
+        "level_text": "Memory-biased programs with limits admitting only some writes: after every call memory_usage() must equal the sum over live keys of (measured overhead + key + value), len() the number of live keys, usage never above the limit, refused writes change nothing (same record objects), and draining every key returns usage to zero; across flush and recovery. Concurrent part: 8-16 creators/growers/shrinkers/deleters/incrementers against a limit admitting only some of them, with a monitor thread sampling memory_usage() continuously and a deterministic probe reading it while several writers are parked between reservation and publish (hook point mem.reserved): usage <= limit at every sample, equal-sized records never exceed floor(limit/size) live keys, refused writes leave the key as it was, exact equality and zero-after-drain at quiescence. Same-key races (the linearizability engine's histories: concurrent upserts / CAS / increments / deletes of one key with different value sizes) are followed by an exact quiescent comparison of memory_usage() with the live records and a drain to zero.",
         "level_note": _MODEL_NOTE,
     },
     "C14": {
